@@ -310,6 +310,8 @@ func (u *Unit) intrinsic(f *Frame, st *State, key string, callee *ssa.Function, 
 		return one(fmt.Sprintf("(ite (<= %s %s) %s %s)", args[0].T, args[1].T, args[0].T, args[1].T), f64)
 	case "math.IsInf":
 		return one(fmt.Sprintf("(= %s INF)", args[0].T), types.Typ[types.Bool])
+	case "sort.Search":
+		return u.sortSearch(f, st, args, pos), true
 	case "fmt.Errorf", "errors.New":
 		r := u.em.fresh("err", "Int")
 		u.assume(st, fmt.Sprintf("(and (> %s 0) (= (itype %s) %d))", r, r, u.em.typeTag(types.Typ[types.UnsafePointer])))
@@ -605,4 +607,48 @@ func (u *Unit) havocAssigns(f *Frame, st *State, env *SpecEnv, con *Contract, po
 			}
 		}
 	}
+}
+
+// closureTerm evaluates a pure closure on symbolic arguments to an SMT term (no
+// definitions, no obligations): used under quantifiers.
+func (u *Unit) closureTerm(f *Frame, st *State, clo Val, args []Val) string {
+	if clo.Fn == nil {
+		u.errf("closure value not statically known")
+		return "false"
+	}
+	save := u.em.noDefine
+	u.em.noDefine = true
+	nf := &Frame{u: u, fn: f.fn, depth: f.depth, pure: true}
+	u.pendingBinds = clo.Binds
+	ne := len(u.errs)
+	res, _ := u.runFunc(clo.Fn, args, st.clone(), nf, "", false)
+	u.em.noDefine = save
+	if len(u.errs) > ne || len(res) != 1 || res[0].T == "" {
+		u.errf("closure %s is not a simple pure expression", clo.Fn.Name())
+		return "false"
+	}
+	return res[0].T
+}
+
+// sort.Search(n, f): smallest index in [0,n] from which f holds, provided f is monotone
+// on [0,n) (generated as an obligation).
+func (u *Unit) sortSearch(f *Frame, st *State, args []Val, pos token.Pos) []Val {
+	n := args[0]
+	clo := args[1]
+	intT := types.Typ[types.Int]
+	u.qn++
+	bi := fmt.Sprintf("si_q%d", u.qn)
+	u.qn++
+	bj := fmt.Sprintf("sj_q%d", u.qn)
+	fi := u.closureTerm(f, st, clo, []Val{{T: bi, Ty: intT}})
+	fj := u.closureTerm(f, st, clo, []Val{{T: bj, Ty: intT}})
+	mono := fmt.Sprintf("(forall ((%s Int) (%s Int)) (=> (and (<= 0 %s) (< %s %s) (< %s %s) %s) %s))", bi, bj, bi, bi, bj, bj, n.T, fi, fj)
+	u.oblige(f, st, "search-monotone", u.exprText(pos, "sort.Search"), mono, pos)
+	k := u.em.fresh("found", "Int")
+	u.assume(st, fmt.Sprintf("(and (<= 0 %s) (<= %s %s))", k, k, n.T))
+	body, bv, lo, hi := rebase(not(fi), bi, "0", k)
+	u.assume(st, fmt.Sprintf("(forall ((%s Int)) (=> (and (<= %s %s) (< %s %s)) %s))", bv, lo, bv, bv, hi, body))
+	fk := u.closureTerm(f, st, clo, []Val{{T: k, Ty: intT}})
+	u.assume(st, implies(fmt.Sprintf("(< %s %s)", k, n.T), fk))
+	return []Val{{T: k, Ty: intT}}
 }
